@@ -2,6 +2,7 @@
 # tools/seedcheck.sh <ID> <demo-dest-dir-relative-to-repo> [seed-subdir]
 # 1. confirms the sub-agent's claims in its own scratch worktree /tmp/wt/<ID>
 # 2. applies the patch to /repo, runs ./check <ID> quick (and other ids given in $EXTRA), reverts
+# env: WT worktree root, PROP property id to check (default = ID), EXTRA further ids, TIER
 set -u
 ID=$1; DEST=$2; SD=${3:-_seed}
 W=${WT:-/tmp/wt}/$ID; S=$W/$SD
@@ -23,7 +24,7 @@ for f in $DEMOS; do rm -f $DEST/$f; done
 cd /repo; if ! git diff --quiet; then echo "/repo dirty"; exit 2; fi
 git apply $S/patch.diff || { echo "PATCH DOES NOT APPLY TO /repo"; exit 2; }
 cd /verif
-for id in $ID ${EXTRA:-}; do
+for id in ${PROP:-$ID} ${EXTRA:-}; do
   ./check $id ${TIER:-quick} > /tmp/seed.$ID.check.$id 2>&1; rc=$?
   echo "check $id ${TIER:-quick}: rc=$rc violations_printed=$(grep -c '^VIOLATION' /tmp/seed.$ID.check.$id)"
   grep -m2 'what:' /tmp/seed.$ID.check.$id | cut -c1-300
